@@ -10,6 +10,9 @@
      ReadMsg(p) / ReadErr(p)   one receive from Messages() / Errors()
      AsyncClose(p) / ClosePC(p) / CloseAll     the close orders
      SetMeta(v) / TopicsOp / PartitionsOp(t)   SetTopicMetadata, Topics(), Partitions(topic)
+     Feed(p, n, b)        a feeder goroutine calls YieldMessage n times on a mock whose channels have b buffer
+                          slots (Config.ChannelBufferSize); every later step is observed with the feeder at
+                          rest (blocked in a channel send or finished)
    PartitionConsumer.HighWaterMarkOffset() and Consumer.HighWaterMarks() of all slots are part of every
    step's observation.  OpSet (cfg) restricts the operations of a family.
 
@@ -20,7 +23,7 @@
    graph); with AllPaths = TRUE every path up to MaxOps is a case.                          *)
 EXTENDS MocksOracle, Json
 
-CONSTANTS MaxOps, MaxYield, MaxErr, AllPaths, SymBreak, Slots, OpSet, EmitCases
+CONSTANTS MaxOps, MaxYield, MaxErr, AllPaths, SymBreak, Slots, OpSet, FeedLens, FeedBufs, EmitCases
 
 VARIABLES cs, md, hist
 vars == <<cs, md, hist>>
@@ -71,6 +74,10 @@ Drain(p, w) ==
   /\ cs[p].reg /\ ~(IF w = "m" THEN cs[p].dm ELSE cs[p].de)
   /\ Do("drain", p, 0, w, 0, CDrain(cs, p, w))
 Consume(p, off) == Do("consume", p, off, "-", 0, CConsume(cs, p, off))
+NoFeeder == \A q \in CParts : cs[q].feed = 0
+Feed(p, n, b) ==
+  /\ cs[p].consumed /\ ~cs[p].closed /\ cs[p].yields = 0 /\ NoFeeder
+  /\ Do("feed", p, b, "-", n, CFeed(cs, p, n, b))
 ReadMsg(p) == cs[p].consumed /\ cs[p].mq # <<>> /\ Do("readmsg", p, 0, "-", 0, CReadMsg(cs, p))
 ReadErr(p) == cs[p].consumed /\ cs[p].eq # <<>> /\ Do("readerr", p, 0, "-", 0, CReadErr(cs, p))
 AsyncClose(p) == cs[p].consumed /\ ~cs[p].closed /\ Do("asyncclose", p, 0, "-", 0, CAsyncClose(cs, p))
@@ -87,6 +94,7 @@ Next ==
      \/ \E v \in {1, 2} : SetMeta(v)
      \/ TopicsOp
      \/ \E t \in {"tc", "td", "tx"} : PartitionsOp(t)
+     \/ \E p \in Slots, n \in FeedLens, b \in FeedBufs : Feed(p, n, b)
 Spec == Init /\ [][Next]_vars
 
 View == IF AllPaths THEN <<cs, md, hist>> ELSE <<cs, md>>
@@ -102,7 +110,18 @@ SeqOf(S, f(_)) ==      \* <<f(i) : i \in S>> in increasing order of i
 RECURSIVE Flat(_)
 Flat(ss) == IF ss = <<>> THEN <<>> ELSE Head(ss) \o Flat(Tail(ss))
 
-YieldedMsgs(p) == SeqOf(On(p, {"yieldmsg"}), LAMBDA i : hist[i].val)
+\* a feeder on p: its script length and buffer size (0 / 0 when there is none before step i)
+FeedAt(p, i) == LET S == On(p, {"feed"}) \cap 1..i IN IF S = {} THEN <<0, 0>> ELSE LET j == CHOOSE j \in S : TRUE IN <<hist[j].id, hist[j].off>>
+ReadsUpTo(p, i) == Cardinality(On(p, {"readmsg"}) \cap 1..i)
+Min2(a, b) == IF a < b THEN a ELSE b
+\* messages whose YieldMessage has started after step i: the yieldmsg operations, or, with a feeder at rest,
+\* the received ones + buffer + the one in flight
+Started(p, i) ==
+  IF FeedAt(p, i)[1] > 0 THEN Min2(FeedAt(p, i)[1], ReadsUpTo(p, i) + FeedAt(p, i)[2] + 1)
+  ELSE Cardinality(On(p, {"yieldmsg"}) \cap 1..i)
+YieldedMsgs(p) ==
+  IF FeedAt(p, Len(hist))[1] > 0 THEN [k \in 1..Started(p, Len(hist)) |-> <<MidOf(p, k), k, p>>]
+  ELSE SeqOf(On(p, {"yieldmsg"}), LAMBDA i : hist[i].val)
 ReadMsgs(p) == SeqOf(On(p, {"readmsg"}), LAMBDA i : hist[i].val)
 YieldedErrs(p) == SeqOf(On(p, {"yielderr"}), LAMBDA i : hist[i].id)
 TakenErrs(p) == Flat(SeqOf(On(p, {"readerr", "closepc"}), LAMBDA i : hist[i].errs))
@@ -119,7 +138,7 @@ ErrorsInOrder ==
 HighWaterMark ==
   \A i \in Idx : \A p \in CParts :
     hist[i].hwm[p + 1] = IF On(p, {"expect"}) \cap 1..i = {} THEN -1
-                         ELSE Cardinality(On(p, {"yieldmsg"}) \cap 1..i) + 1
+                         ELSE Started(p, i) + 1
 
 Registered(p, i) == On(p, {"expect"}) \cap 1..(i - 1) # {}
 OkConsumes(p, i) == {j \in On(p, {"consume"}) : j < i /\ hist[j].ret = "ok"}
@@ -134,7 +153,7 @@ ConsumeResult ==
 ClosedBefore(p, i) == \E j \in 1..(i - 1) : /\ hist[j].op = "closeall" \/ (hist[j].op = "closepc" /\ hist[j].p = p)
                                             /\ OkConsumes(p, j) # {}
 PendM(p, i) == IF ClosedBefore(p, i) THEN 0
-               ELSE Cardinality(On(p, {"yieldmsg"}) \cap 1..(i - 1)) - Cardinality(On(p, {"readmsg"}) \cap 1..(i - 1))
+               ELSE Started(p, i - 1) - Cardinality(On(p, {"readmsg"}) \cap 1..(i - 1))
 PendE(p, i) == IF ClosedBefore(p, i) THEN 0
                ELSE Cardinality(On(p, {"yielderr"}) \cap 1..(i - 1)) - Cardinality(On(p, {"readerr"}) \cap 1..(i - 1))
 DrainSet(p, w, i) == \E j \in On(p, {"drain"}) : j < i /\ hist[j].w = w
